@@ -325,7 +325,11 @@ func (*Ufs) Walk(req *SrvReq) {
 		path = p
 	}
 
-	nfid.path = path
+	// Only a complete walk moves the (new) fid; after a partial walk both
+	// fids stay as they were, also when walking in place (newfid == fid).
+	if i == len(tc.Wname) {
+		nfid.path = path
+	}
 	req.RespondRwalk(wqids[0:i])
 }
 
